@@ -657,7 +657,7 @@ static void on_signal(int sig) {
   (void)r;
   _exit(sig == SIGALRM ? 78 : 76);
 }
-extern "C" __attribute__((used)) const char *__asan_default_options() { return "exitcode=77:detect_leaks=0"; }
+extern "C" __attribute__((used)) const char *__asan_default_options() { return "exitcode=77:detect_leaks=0:quarantine_size_mb=16"; }
 
 int main(int argc, char **argv) {
   setvbuf(stdout, nullptr, _IOLBF, 0);
